@@ -18,7 +18,7 @@ import numpy as np
 import z3
 
 import fdtdx
-from fdtdx.dispersion import DispersionModel, DrudePole, LorentzPole
+from fdtdx.dispersion import CCPRPole, DispersionModel, DrudePole, LorentzPole
 from fdtdx.fdtd.forward import forward
 
 from .. import jx2smt as jx
@@ -30,14 +30,16 @@ META = dict(
     functions=["fdtd.update.update_E (dispersive ADE branch, diagonal case)", "fdtd.update.update_H", "fdtd.forward.forward", "fdtd.initialization._init_arrays (dispersive coefficient allocation)"],
     assumptions=["reals for floats", "coefficient arrays symbolic on the cells where placement made them non-zero, zero elsewhere; P_curr, P_prev, E, H symbolic",
                  "E-field part of the oracle for clause (b): the non-dispersive placement of the same scene"],
-    outside="clause 2 (passive media stay bounded for 1e4 steps): long-horizon float stability, not encodable; CCPR (c4) poles; oriented (off-diagonal) poles; full-tensor permittivity branch",
+    outside="clause 2 (passive media stay bounded for 1e4 steps): long-horizon float stability, not encodable; oriented (off-diagonal) poles; full-tensor permittivity branch",
     bounds=dict(quick=dict(shape=(3, 3, 3)), thorough=dict(shapes=[(3, 3, 3), (4, 3, 2)])),
 )
 
 
 def cases(tier, seed):
     out = [dict(name="lorentz-iso", poles="lorentz", shape=(3, 3, 3), bounds="periodic"),
-           dict(name="drude+lorentz-peraxis", poles="mixed", shape=(3, 3, 3), bounds="pec")]
+           dict(name="drude+lorentz-peraxis", poles="mixed", shape=(3, 3, 3), bounds="pec"),
+           # a CCPR pole (dE/dt coupling c4, implicit divide) together with electric conductivity (second implicit divide)
+           dict(name="ccpr-lossy", poles="ccpr_lossy", shape=(3, 3, 3), bounds="periodic")]
     if tier != "quick":
         out += [dict(name="lorentz-iso-4x3x2-lossy", poles="lorentz_lossy", shape=(4, 3, 2), bounds="periodic"),
                 dict(name="drude-iso-pmc", poles="drude", shape=(3, 3, 3), bounds="pmc")]
@@ -51,6 +53,8 @@ def _material(kind):
         return fdtdx.Material(permittivity=2.0, electric_conductivity=0.5, dispersion=DispersionModel(poles=(LorentzPole(resonance_frequency=4e14, damping=1e13, delta_epsilon=1.5),)))
     if kind == "drude":
         return fdtdx.Material(permittivity=1.5, dispersion=DispersionModel(poles=(DrudePole(plasma_frequency=6e14, damping=2e13),)))
+    if kind == "ccpr_lossy":
+        return fdtdx.Material(permittivity=2.0, electric_conductivity=0.5, dispersion=DispersionModel(poles=(CCPRPole(pole=complex(-2e13, 4e14), residue=complex(1e14, -3e14)),)))
     if kind == "mixed":
         return fdtdx.Material(permittivity=(2.0, 2.5, 3.0), dispersion=DispersionModel(poles=(
             DrudePole(plasma_frequency=(5e14, 6e14, 7e14), damping=(1e13, 2e13, 3e13)),
@@ -71,8 +75,9 @@ def run_case(c, case):
     c.bounds.update(shape=list(shape))
     if arr.dispersive_c1 is None or arr.fields.dispersive_P_curr is None:
         raise Inconclusive("scene has no dispersive arrays")
-    if arr.dispersive_c4 is not None:
-        raise Inconclusive("unexpected c4 array")
+    has_c4 = arr.dispersive_c4 is not None
+    if has_c4 != (case["poles"] == "ccpr_lossy"):
+        raise Inconclusive("c4 array presence does not match the pole kind")
     if not np.allclose(np.asarray(arr.inv_permittivities), np.asarray(arr0.inv_permittivities)):
         raise Inconclusive("dispersive and plain placements disagree on inverse permittivity")
     from ..scenes import wall_masks
@@ -85,10 +90,13 @@ def run_case(c, case):
     Pc, Pp = jx.symarr("Pc", psh), jx.symarr("Pp", psh)
     csh = arr.dispersive_c1.shape
     nz = (np.asarray(arr.dispersive_c1) != 0) | (np.asarray(arr.dispersive_c2) != 0) | (np.asarray(arr.dispersive_c3) != 0)
+    if has_c4:
+        nz = nz | (np.asarray(arr.dispersive_c4) != 0)
     if nz.all() or not nz.any():
         raise Inconclusive("need both dispersive and non-dispersive cells")
     cs = []
-    for nm in ("c1", "c2", "c3"):
+    cnames = ("c1", "c2", "c3") + (("c4",) if has_c4 else ())
+    for nm in cnames:
         a = jx.symarr(nm, csh)
         a[~nz] = 0
         cs.append(a)
@@ -97,11 +105,13 @@ def run_case(c, case):
     zc = np.broadcast_to(zero_cells, psh)
     Pc[zc] = 0
     Pp[zc] = 0
-    c.symvars += E.size + H.size + Pc.size + Pp.size + 3 * int(nz.sum())
+    c.symvars += E.size + H.size + Pc.size + Pp.size + len(cnames) * int(nz.sum())
 
-    def step(E, H, Pc, Pp, c1, c2, c3):
+    def step(E, H, Pc, Pp, c1, c2, c3, *c4):
         a = (arr.aset("fields->E", E).aset("fields->H", H).aset("fields->dispersive_P_curr", Pc).aset("fields->dispersive_P_prev", Pp)
              .aset("dispersive_c1", c1).aset("dispersive_c2", c2).aset("dispersive_c3", c3))
+        if c4:
+            a = a.aset("dispersive_c4", c4[0])
         st = forward((jnp.asarray(0, dtype=jnp.int32), a), cfg, oc, key, False, False, False)
         f = st[1].fields
         return f.E, f.H, f.dispersive_P_curr, f.dispersive_P_prev
@@ -117,7 +127,7 @@ def run_case(c, case):
     c.interp_s += time.time() - t0
     sj, s0j = jax.jit(step), jax.jit(step0)
     rng = np.random.default_rng(c.seed)
-    conc = [rng.normal(size=fsh) * (~zE), rng.normal(size=fsh) * (~zH), rng.normal(size=psh) * (~zc), rng.normal(size=psh) * (~zc)] + [np.asarray(getattr(arr, n)) for n in ("dispersive_c1", "dispersive_c2", "dispersive_c3")]
+    conc = [rng.normal(size=fsh) * (~zE), rng.normal(size=fsh) * (~zH), rng.normal(size=psh) * (~zc), rng.normal(size=psh) * (~zc)] + [np.asarray(getattr(arr, "dispersive_" + n)) for n in cnames]
     want = sj(*[jnp.asarray(x) for x in conc])
     got = tr(*[jx.lift(x) for x in conc])
     c.validate(jx.to_numeric(got[0]), np.asarray(want[0]), "dispersive step E")
@@ -126,15 +136,20 @@ def run_case(c, case):
     def conc_of(m):
         return [model_array(m, x) for x in (E, H, Pc, Pp, *cs)]
 
-    # (a) recurrence: P_new = c1 P + c2 P_prev + c3 E  (E broadcast over the pole axis), P_prev_new = P
+    # (a) recurrence: P_new = c1 P + c2 P_prev + c3 E (+ c4 E_new for CCPR poles; E broadcast over the pole axis), P_prev_new = P
     Eb = np.broadcast_to(jx.lift(E)[None], psh)
-    c1b, c2b, c3b = [np.broadcast_to(x, psh) for x in cs]
+    c1b, c2b, c3b = [np.broadcast_to(x, psh) for x in cs[:3]]
     rec = jx.ew(lambda a, p, b, q, d, e: sc.add(sc.add(sc.mul(a, p), sc.mul(b, q)), sc.mul(d, e)), c1b, Pc, c2b, Pp, c3b, Eb)
+    if has_c4:
+        E1b = np.broadcast_to(jx.lift(E1)[None], psh)
+        rec = jx.ew(lambda r, d, e: sc.add(r, sc.mul(d, e)), rec, np.broadcast_to(cs[3], psh), E1b)
 
     def replay_a(m):
         ci = conc_of(m)
         o = sj(*[jnp.asarray(x) for x in ci])
         ref = np.broadcast_to(ci[4], psh) * ci[2] + np.broadcast_to(ci[5], psh) * ci[3] + np.broadcast_to(ci[6], psh) * np.broadcast_to(ci[0][None], psh)
+        if has_c4:
+            ref = ref + np.broadcast_to(ci[7], psh) * np.broadcast_to(np.asarray(o[0])[None], psh)
         r = float(np.max(np.abs(np.asarray(o[2]) - ref))) / (1.0 + float(np.max(np.abs(ref))))
         r2 = float(np.max(np.abs(np.asarray(o[3]) - ci[2])))
         return max(r, r2) > 1e-7, dict(residual_P=r, residual_Pprev=r2)
@@ -153,7 +168,7 @@ def run_case(c, case):
     c.prove_eq("E on zero-coefficient cells == non-dispersive step", jx.lift(E1)[zc3], jx.lift(E0)[zc3], [], replay_b, key=f"zero-cells:{case['poles']}")
     # (c) all coefficients and polarisations zero: the whole step equals the non-dispersive one
     zer = lambda a: np.zeros(a.shape)
-    (E1z, H1z, P1z, _) = tr(E, H, zer(Pc), zer(Pp), zer(cs[0]), zer(cs[1]), zer(cs[2]))
+    (E1z, H1z, P1z, _) = tr(E, H, zer(Pc), zer(Pp), *[zer(x) for x in cs])
     c.prove_eq("all-zero coefficients: E == non-dispersive step", E1z, E0, [], None, key="zero-all:E")
     c.prove_eq("all-zero coefficients: H == non-dispersive step", H1z, H0, [], None, key="zero-all:H")
     c.prove_eq("all-zero coefficients: P stays 0", P1z, np.zeros(psh), [], None, key="zero-all:P")
